@@ -30,14 +30,18 @@ def solve(A, b, Delta):
     minSig = sig[0]
 
     # consider bounding the initial guess, see More' Sorenson paper
-    lam = -minSig + eps if minSig < eps else 0.0
+    # Work with mu = lam + minSig and the shifted spectrum sig - minSig (whose first entry is exactly
+    # zero): in nearly hard cases the root has sig[0] + lam << |lam|, and forming sig + lam directly
+    # loses the digits the secular equation depends on, so that the iteration below never converges.
+    sigShift = sig - minSig
+    mu = eps if minSig < eps else minSig
 
     #try to solve this for lam:
     #(A + lam I)p = -b, such that norm(p) = Delta
     
     # Check for the hard case
-    if minSig < eps and norm(bv/(sig+lam)) < Delta:
-        p = -v@(bv/(sig+lam))
+    if minSig < eps and norm(bv/(sigShift+mu)) < Delta:
+        p = -v@(bv/(sigShift+mu))
         z = v[:,0] # eigenvectors are the columns of v
         pz = p@z
         pp = p@p
@@ -46,20 +50,18 @@ def solve(A, b, Delta):
         tau = ddmpp / (pz + sgn*np.sqrt(pz*pz + ddmpp))
         return p + tau * z
 
-    pNormSq = pnorm_squared(bvv, sig+lam)
+    pNormSq = pnorm_squared(bvv, sigShift+mu)
     pNorm = np.sqrt(pNormSq)
     bError = (pNorm - Delta)/Delta
     #print('\nberror = ', bError)
 
     # consider an out if it doesnt converge, or use a better initial guess, or bound the lam from below and above.
     while np.abs(bError) > 1e-9:
-        qNormSq = qnorm_squared(bvv, sig+lam)
-        lam += (pNormSq / qNormSq) * bError
-        pNormSq = pnorm_squared(bvv, sig+lam)
+        qNormSq = qnorm_squared(bvv, sigShift+mu)
+        mu += (pNormSq / qNormSq) * bError
+        pNormSq = pnorm_squared(bvv, sigShift+mu)
         pNorm = np.sqrt(pNormSq)
         bError = (pNorm - Delta)/Delta
         #print('\nberror = ', bError)
 
-    return -v@(bv/(sig+lam))
-
-
+    return -v@(bv/(sigShift+mu))
